@@ -1032,7 +1032,7 @@ def defgeo_inp(which, args, ref_ind):
     return inp
 
 
-def drawn(S, which, args, ref_ind, phi, scale, color="red"):
+def drawn(S, which, args, ref_ind, phi, scale, color="red", warm=None):
     """def_geo1 + plot_mode_geo1 / def_geo2 + plot_mode_geo2_mpl on a new setup object (Agg): the coordinates the
     artists hold.  geo1: (scatter offsets, [segment of arrow k]); geo2: scatter offsets of the displaced points."""
     import matplotlib.pyplot as plt
@@ -1041,6 +1041,12 @@ def drawn(S, which, args, ref_ind, phi, scale, color="red"):
     s, _ = call_defgeo(S, which, args, ref_ind)
     Phi = np.column_stack([np.zeros(len(phi)), np.array(phi, float)])
     try:
+        if warm is not None:
+            # the same setup object has already drawn ANOTHER result (same mode number, same scale factor): what is
+            # drawn next is the result handed over next
+            W = np.column_stack([np.zeros(len(warm)), np.array(warm, float)])
+            (s.plot_mode_geo1 if which == 1 else s.plot_mode_geo2_mpl)(_res(W), 2, scaleF=scale)
+            plt.close("all")
         if which == 1:
             fig, ax = s.plot_mode_geo1(_res(Phi), 2, scaleF=scale)
             n = len(s.geo1.sens_names)
@@ -1109,7 +1115,11 @@ def corr_plot(ctx):
         inp = defgeo_inp(which, args, spec["ref_ind"])
         inp.update(phi=[R(v) for v in phi], scale=R(scale))
         model = ctx.model(f"c19_plotgeo{which}", **inp)
-        res = run(drawn, S, which, args, spec["ref_ind"], phi, scale, color)
+        warm = None
+        if tag in ("valid", "labels_perm") and rng.random() < 0.5:
+            warm = [round(1.7 * v + 0.3, 3) for v in reversed(phi)]
+            ctx.count(f"plot{which}_after_another_result_on_the_same_setup")
+        res = run(drawn, S, which, args, spec["ref_ind"], phi, scale, color, warm)
         if "err" in model:
             ok = err_match(model, res)
         elif not res[0]:
